@@ -305,7 +305,18 @@ property files; I merged after rebuilding and re-running the checks in `/verif`:
 | C06 | 3 | 22 | all seven closed forms: `ellipsoid_mirror_stigmatic(_rev)(_neg)`, `hyperboloid_mirror_stigmatic`, `hyperboloid_secondary_stigmatic`, `hyperbolic_surface_stigmatic`, `plano_hyperbolic_singlet`, `sphere_aplanatic`, `sphere_centre_opl` |
 | C07 | 16 | 101 | `traceLens_mirX/_mirY(_asph)`, `traceLens_scale(_wavelength)`, `dummy_surface_transparent` (list level), `selectRoot_advance` |
 
-A **referee pass** followed: four review agents (fresh contexts, private copies, brief: is each theorem vacuous, true
+A later round (with round 7 of the seeding, same brief plus "turn clauses the harness only checks numerically into
+theorems, give every recorded finding an iff characterisation") added:
+
+| property | before | after | main additions |
+|----|----|----|----|
+| C08 | 39 | 57 | `index_matched_contributes_zero`, `mirror_code_vs_spec` (iff, F-C08-2), `tsc_code_vs_spec_iff` (F-C08-3), `seidel_contrib_free_of_image_space`, `aperture_field_scaling`, `stop_shift_formulae`, `result_independent_of_history`, `aberrations_ignore_unread_edits` |
+| C11 | 43 | 60 | `workingFno_is_half_inverse_marginal_slope` (and its failure for erect images), `workingFno_pupil_mag_slip_iff`, `psfSpec_peak_100_any_mask`, `psfSpec_norm_by_traced_rays` (iff), `strehl_any_mask`, `fftshift_index_convention` (even and odd grids), `mtf_symmetric`, `freq_step_times_extent` |
+| C13 | 28 | 51 | `std_distance_selects_per_ray` / `_mixed_batch` (degenerate branch per ray), `traceLens_per_ray`, `batch_gather` / `batch_concat` / `batch_perm`, `nrLoop_count`, `nrCount_mono_left/right`, `nr_batches_sharing_slowest_agree`, `nr_not_batch_independent` (negation with witness), `result_independent_of_interleaving_*` |
+| C15 | 37 | 39 | `used_range_sampler_state`, `used_range_sampler_block` (samplers used before a sensitivity run) |
+| C19 | 28 | 98 | Python indexing of surfaces (`pyIndex_*`, `pickup_index_round_trip`, `pyIndex_normIdxSlip_ne`), ownership of the telecentric flag (`reload_keeps_optic_flag`, `fgFlag_slip_lost_iff`), `reload_equal_under_later_edits(_spec)`, `reload_then_update_code_partial`, one round-trip law per component pair and their negative results |
+
+A **referee pass** followed the first round: four review agents (fresh contexts, private copies, brief: is each theorem vacuous, true
 for the wrong reason — the junk values `Num.inf = 0`, `x/0 = 0`, `sqrt` of a negative —, weaker than the clause, or a
 restated definition?) went through C01 and C08–C20.  No main theorem was vacuous or false.  What they found and
 repaired in the Props files (merged): missing non-vacuity instances on realistic lenses (C08 `SysOK` singlet, C14 a
